@@ -10,6 +10,7 @@ import Panrpc.Model.Broadcaster
 import Driver.RemoteDef
 import Driver.Wire
 import Driver.Convert
+import Driver.Stream
 
 open Panrpc
 
@@ -65,6 +66,7 @@ def bcSummary (s : Bc.State) : String :=
 
 structure St where
   bc : Bc.State := Bc.init
+  stm : St.State := St.init []
   dead : Bool := false     -- a previous line of this trace was rejected
 
 def handle (st : St) (line : String) : St × String :=
@@ -90,6 +92,10 @@ def handle (st : St) (line : String) : St × String :=
   | "rw" :: rest => (st, RwQ.remoteDefQuery rest)
   | "wire" :: rest => (st, WireQ.wireQuery rest)
   | "cv" :: rest => (st, Driver.Cv.convertQuery rest)
+  | "st" :: "run" :: rest => (st, streamQuery ("run" :: rest))
+  | "st" :: rest =>
+    let (s', rej, ans) := streamHandle st.stm rest
+    ({ st with stm := s', dead := st.dead || rej }, ans)
   | _ => (st, s!"bad-op {line}")
 
 partial def loop (h : IO.FS.Stream) (out : IO.FS.Stream) (st : St) : IO Unit := do
